@@ -41,6 +41,9 @@ REPRO = {
 
 
 def classify(kf, rec):
+    import common
+    if common.repro_only(kf, rec):
+        return True
     c = rec["case"]
     cl = kf.get("classifier")
     doc = c.get("doc", "")
@@ -143,6 +146,14 @@ def run(chk: Check) -> None:
                 chk.fail("property", {"doc": text, "opts": kw, "plaintext": True, "pass1": o1, "pass2": o2},
                          "plaintext not idempotent: " + first_diff(o1, o2), classify)
     chk.port_stat("spec: plaintext format(format(x)) == format(x)", ntp, nbp)
+    # listed with a fixed reproducer only (D-96)
+    from flowmark import reformat_text as _rt
+    for doc, kw in (("don't...won't\n", dict(smartquotes=True, ellipses=True)), ("wait..\\. x\n", dict(ellipses=True))):
+        p1 = _rt(doc, width=88, semantic=False, **kw)
+        p2 = _rt(p1, width=88, semantic=False, **kw)
+        chk.count()
+        if p1 != p2:
+            chk.fail("property", {"doc": doc, "opts": kw, "pass1": p1, "pass2": p2, "repro": "D-96"}, "not idempotent: " + first_diff(p1, p2), classify)
 
 
 def replay(path: str) -> int:
